@@ -559,6 +559,7 @@ func (fg *FnGen) uncontractedCall(cc *ssa.CallCommon, fn *ssa.Function, name str
 		for _, a := range args {
 			fg.havocReachable(a, pos)
 		}
+		fg.havocBoxedArgs(cc, pos)
 		fg.havocAllocMonotone()
 	case cc.IsInvoke() && isErrorInterface(cc.Value.Type()):
 		// error.Error(): assumed to be a read-only accessor
@@ -570,6 +571,7 @@ func (fg *FnGen) uncontractedCall(cc *ssa.CallCommon, fn *ssa.Function, name str
 		for _, a := range args[1:] {
 			fg.havocReachable(a, pos)
 		}
+		fg.havocBoxedArgs(cc, pos)
 		fg.havocAllocMonotone()
 	case !cc.IsInvoke() && fg.g.externalFuncType(cc.Value.Type()):
 		// a value of a named function type declared outside the repository (context.CancelFunc, ...): external code
@@ -577,6 +579,7 @@ func (fg *FnGen) uncontractedCall(cc *ssa.CallCommon, fn *ssa.Function, name str
 		for _, a := range args {
 			fg.havocReachable(a, pos)
 		}
+		fg.havocBoxedArgs(cc, pos)
 		fg.havocAllocMonotone()
 	default:
 		if !fg.modAll {
@@ -596,6 +599,18 @@ func (fg *FnGen) uncontractedCall(cc *ssa.CallCommon, fn *ssa.Function, name str
 	fg.assume(fg.valFacts(res))
 	fg.assume(fg.allocFacts(res))
 	return res
+}
+
+// havocBoxedArgs: a pointer or slice passed inside an interface value (json.Unmarshal(data, &v)) is written through as well.
+func (fg *FnGen) havocBoxedArgs(cc *ssa.CallCommon, pos token.Pos) {
+	for _, a := range cc.Args {
+		if mi, ok := a.(*ssa.MakeInterface); ok {
+			switch types.Unalias(mi.X.Type()).Underlying().(type) {
+			case *types.Pointer, *types.Slice:
+				fg.havocReachable(fg.val(mi.X), pos)
+			}
+		}
+	}
 }
 
 // havocReachable havocs memory directly reachable from an argument (one level).
@@ -1341,6 +1356,11 @@ func (g *Gen) isStableWriter(comp string, fn *ssa.Function) bool {
 
 // addArgWrites: what an external callee may write through one argument (one level).
 func (g *Gen) addArgWrites(ws *writeSet, a ssa.Value) {
+	if mi, ok := a.(*ssa.MakeInterface); ok {
+		// json.Unmarshal(data, &v): the pointer travels inside an interface value
+		g.addArgWrites(ws, mi.X)
+		return
+	}
 	if isLocalAlloc(a) {
 		return
 	}
